@@ -3,6 +3,8 @@ package node
 import (
 	"fmt"
 
+	"github.com/freeconf/yang/fc"
+
 	"github.com/freeconf/yang/meta"
 	"github.com/freeconf/yang/val"
 	"github.com/freeconf/yang/xpath"
@@ -12,6 +14,10 @@ type xpathImpl struct {
 }
 
 func (xp xpathImpl) resolvePath(seg *xpath.Path, s *Selection) (*Selection, error) {
+	if seg == nil {
+		// e.g. "lc": the path ends at a container without comparing anything
+		return nil, fmt.Errorf("%w. xpath expression ends without a comparison", fc.BadRequestError)
+	}
 	m := meta.Find(s.Meta().(meta.HasDefinitions), seg.Ident)
 	if m == nil {
 		return nil, fmt.Errorf("'%s' not found in xpath", seg.Ident)
@@ -56,7 +62,7 @@ func (xp xpathImpl) resolvePath(seg *xpath.Path, s *Selection) (*Selection, erro
 		}
 		return s, nil
 	}
-	panic("type not supported " + m.Ident())
+	return nil, fmt.Errorf("%w. '%s' cannot be used in an xpath expression", fc.BadRequestError, m.Ident())
 }
 
 func (xp xpathImpl) resolveExpression(name string, e xpath.Expression, sel *Selection) (bool, error) {
@@ -64,7 +70,7 @@ func (xp xpathImpl) resolveExpression(name string, e xpath.Expression, sel *Sele
 	case *xpath.Operator:
 		return xp.resolveOperator(x, name, sel)
 	}
-	panic("unknown xpath expression")
+	return false, fmt.Errorf("%w. '%s' is not compared with anything in xpath expression", fc.BadRequestError, name)
 }
 
 func (xp xpathImpl) resolveOperator(oper *xpath.Operator, ident string, s *Selection) (bool, error) {
@@ -94,7 +100,13 @@ func (xp xpathImpl) resolveOperator(oper *xpath.Operator, ident string, s *Selec
 	case "!=":
 		return !val.Equal(a, b), nil
 	default:
-		c := a.(val.Comparable).Compare(b.(val.Comparable))
+		ac, aOrdered := a.(val.Comparable)
+		bc, bOrdered := b.(val.Comparable)
+		if !aOrdered || !bOrdered || a.Format() != b.Format() {
+			// lists, bits, empty, or a union whose value and literal ended up as different types
+			return false, fmt.Errorf("%w. '%s' cannot be ordered against '%v'", fc.BadRequestError, ident, oper.Lhs)
+		}
+		c := ac.Compare(bc)
 		switch oper.Oper {
 		case "<":
 			return c < 0, nil
@@ -106,7 +118,7 @@ func (xp xpathImpl) resolveOperator(oper *xpath.Operator, ident string, s *Selec
 			return c <= 0, nil
 		}
 	}
-	panic("unrecognized operator: " + oper.Oper)
+	return false, fmt.Errorf("%w. unrecognized operator %s", fc.BadRequestError, oper.Oper)
 }
 
 func (xp xpathImpl) resolveAbsolutePath(s *Selection) (*Selection, error) {
